@@ -137,6 +137,10 @@ def main():
             holder["v"] = v
             raise
 
+    if args.lastcase:
+        # from here on every case is short: the runner's watchdog may now treat a case that stays current for minutes as a hang
+        # (the deterministic sweeps of the prelude are long single steps by design)
+        open(args.lastcase + ".search", "w").close()
     try:
         search()
     except Violation:
